@@ -1,7 +1,11 @@
 (* EsProofs.v — lemmas about the Elasticsearch query builder model (EsCheck.v, EsBuild.v) against the
    vocabulary of EsSpec.v.  Used by props/C07.v (and C06.v).
    simplify_if_same is modelled by EsBuild.flattened: only an un-named operand of the operation's own class
-   is spliced (repair of F16), so the leaf lemmas of part E need no guard on names. *)
+   is spliced (repair of F16), so the leaf lemmas of part E need no guard on names.
+   Part E proves that the E-tree carries the BUILDER-FOLLOWING leaves xl_b (defined here, a proof device: a
+   ~ / ^ is applied only when no field between it and its leaf gets a nested clause); part E' proves that the
+   builder's nesting decision is EsSpec.crosses_nested (crosses_split) and that xl_b is the specification's
+   EsSpec.xl outside F22's class (xl_b_xl), whence the guarded build_etree_leaves / build_leaves. *)
 Require Import Base Decimal Tree GenTree GenVisitors GenChars Visitor Json EsSpecs EsCheck EsBuild EsSpec
                TreeInd.
 From Coq Require Import Lia.
@@ -831,7 +835,58 @@ Proof.
     try discriminate; reflexivity.
 Qed.
 
-Lemma binary_not_leafy cfg env t cx : is_binary t = true -> leafy cfg env t cx = false.
+(* ---- the builder-following reading of the expected leaves (proof-side auxiliary, NOT the specification).
+   leafy_b / xl_b are EsSpec.direct_leaf / EsSpec.xl with one difference: a ~ / ^ is applied only when the
+   operand is a DIRECT leaf for the builder's own nesting decision (split_nested of the derived environment),
+   i.e. it is dropped when a field between the modifier and its leaf gets a nested clause.  That is what the
+   code does (F22).  Part E proves that the E-tree carries exactly xl_b; part E' proves xl_b = EsSpec.xl outside
+   F22's class (modifier_over_nested). *)
+Fixpoint leafy_b (cfg : es_config) (env : es_env) (t : item) (cx : ectx) : bool :=
+  match t with
+  | Term KRegex _ _ => false
+  | Term _ _ _ => true
+  | Range _ _ _ _ _ => true
+  | SearchField _ n e =>
+      leafy_b cfg env e (field_ctx cfg t n cx) &&
+      match split_nested env n cx with None => true | Some _ => false end
+  | Grp _ _ e | Boost _ e _ _ => leafy_b cfg env e (propagate_name t cx)
+  | Fuzzy _ x _ _ | Proximity _ x _ _ => leafy_b cfg env x (propagate_name t cx)
+  | _ => false
+  end.
+
+Fixpoint xl_b (cfg : es_config) (env : es_env) (t : item) (cx : ectx) : list leaf :=
+  let cx' := propagate_name t cx in
+  let sub (c : item) := tagz (ztq_of_op (ekind cfg t)) (leafy_b cfg env c cx') (xl_b cfg env c cx') in
+  match t with
+  | Term KWord _ v => [word_leaf cfg t v cx]
+  | Term KPhrase _ v => [phrase_leaf cfg t v cx]
+  | Term KRegex _ _ => []
+  | Range _ lo hi il ih =>
+      match range_bound_value lo, range_bound_value hi with
+      | Some vlo, Some vhi =>
+          [mk_range (if il then k_gte else k_gt) vlo (if ih then k_lte else k_lt) vhi
+                    (ctx_fields cfg cx) (get_name t cx)]
+      | _, _ => []
+      end
+  | SearchField _ n e => xl_b cfg env e (field_ctx cfg t n cx)
+  | Grp _ _ e => xl_b cfg env e cx'
+  | Boost _ e f _ =>
+      if leafy_b cfg env e cx' then map (leaf_set_boost f) (xl_b cfg env e cx') else xl_b cfg env e cx'
+  | Fuzzy _ x d _ =>
+      if leafy_b cfg env x cx' then map (leaf_set_fuzziness d) (xl_b cfg env x cx') else xl_b cfg env x cx'
+  | Proximity _ x z _ =>
+      if leafy_b cfg env x cx'
+      then map (if ctx_is_analyzed cfg cx then leaf_set_slop (dec_of_Z z)
+                else leaf_set_fuzziness (dec_of_Z z)) (xl_b cfg env x cx')
+      else xl_b cfg env x cx'
+  | Op _ _ ops => (fix go (l : list item) : list leaf :=
+                     match l with [] => [] | c :: l' => sub c ++ go l' end) ops
+  | Unary _ _ a => sub a
+  | ORange _ _ a _ => xl_b cfg env a cx'
+  | NoneItem _ => []
+  end.
+
+Lemma binary_not_leafy_b cfg env t cx : is_binary t = true -> leafy_b cfg env t cx = false.
 Proof. destruct t as [| | | | | | | |[]| |]; try discriminate; reflexivity. Qed.
 
 Lemma cls_eqb_eq a b : cls_eqb a b = true -> a = b.
@@ -843,19 +898,19 @@ Lemma op_go_flat_map {A} (f : item -> list A) l :
 Proof. induction l as [|c l IH]; simpl; [reflexivity|]. rewrite IH. reflexivity. Qed.
 
 (* the expected leaves of an operation / + : its operands one after the other *)
-Lemma xl_binary cfg env t cx :
+Lemma xl_b_binary cfg env t cx :
   is_binary t = true ->
-  xl cfg env t cx =
+  xl_b cfg env t cx =
   flat_map (fun c => tagz (ztq_of_op (ekind cfg t))
-                          (leafy cfg env c (propagate_name t cx)) (xl cfg env c (propagate_name t cx)))
+                          (leafy_b cfg env c (propagate_name t cx)) (xl_b cfg env c (propagate_name t cx)))
            (children t).
 Proof.
   destruct t as [| | | | | | |k m ops|[] m a| |]; try discriminate; intros _.
   - simpl children.
     exact (op_go_flat_map
              (fun c => tagz (ztq_of_op (ekind cfg (Op k m ops)))
-                            (leafy cfg env c (propagate_name (Op k m ops) cx))
-                            (xl cfg env c (propagate_name (Op k m ops) cx))) ops).
+                            (leafy_b cfg env c (propagate_name (Op k m ops) cx))
+                            (xl_b cfg env c (propagate_name (Op k m ops) cx))) ops).
   - simpl. rewrite app_nil_r. reflexivity.
 Qed.
 
@@ -868,12 +923,12 @@ Section LeavesSpec.
   Definition W (t : item) : Prop :=
     forall par cx items, par_ok par -> visit cfg env t par cx = ROk items ->
       if flat par t
-      then flat_map eleaves (tag (ekind cfg t) items) = xl cfg env t cx
-      else exists e, items = [e] /\ eleaves e = xl cfg env t cx /\ is_leaf e = leafy cfg env t cx.
+      then flat_map eleaves (tag (ekind cfg t) items) = xl_b cfg env t cx
+      else exists e, items = [e] /\ eleaves e = xl_b cfg env t cx /\ is_leaf e = leafy_b cfg env t cx.
 
   Lemma walk_none_leaves cx l items :
     Forall W l -> walk (visit cfg env) None cx l = ROk items ->
-    Forall2 (fun c e => eleaves e = xl cfg env c cx /\ is_leaf e = leafy cfg env c cx) l items.
+    Forall2 (fun c e => eleaves e = xl_b cfg env c cx /\ is_leaf e = leafy_b cfg env c cx) l items.
   Proof.
     intros HW. revert items. induction HW as [|c l Hc _ IH]; simpl; intros items H.
     - inversion H. constructor.
@@ -888,7 +943,7 @@ Section LeavesSpec.
     is_binary t = true -> Forall W l ->
     walk (visit cfg env) (Some (cls_of t)) cx l = ROk items ->
     flat_map eleaves (tag (ekind cfg t) items) =
-    flat_map (fun c => tagz (ztq_of_op (ekind cfg t)) (leafy cfg env c cx) (xl cfg env c cx)) l.
+    flat_map (fun c => tagz (ztq_of_op (ekind cfg t)) (leafy_b cfg env c cx) (xl_b cfg env c cx)) l.
   Proof.
     intros Hb HW. revert items. induction HW as [|c l Hc _ IH]; simpl; intros items H.
     - inversion H. unfold tag. destruct (ztq_of_op (ekind cfg t)); reflexivity.
@@ -901,7 +956,7 @@ Section LeavesSpec.
       destruct (flattened c (cls_of t)) eqn:Hf.
       + unfold flattened in Hf. apply andb_prop in Hf as [He _].
         rewrite (same_cls_ekind cfg t c He) in Hc. rewrite Hc.
-        rewrite binary_not_leafy by (rewrite (same_cls_binary t c He); exact Hb).
+        rewrite binary_not_leafy_b by (rewrite (same_cls_binary t c He); exact Hb).
         unfold tagz. destruct (ztq_of_op (ekind cfg t)); reflexivity.
       + destruct Hc as [e [-> [H1 H2]]]. rewrite tag_single, H1, H2. reflexivity.
   Qed.
@@ -917,7 +972,7 @@ Section LeavesSpec.
     clear IH.
     (* without enclosing operation *)
     assert (Hnorm : forall cx items, visit cfg env t None cx = ROk items ->
-              exists e, items = [e] /\ eleaves e = xl cfg env t cx /\ is_leaf e = leafy cfg env t cx).
+              exists e, items = [e] /\ eleaves e = xl_b cfg env t cx /\ is_leaf e = leafy_b cfg env t cx).
     { intros cx items Hv.
       destruct (is_binary t) eqn:Hb.
       - (* operations and + *)
@@ -925,14 +980,14 @@ Section LeavesSpec.
         destruct (walk (visit cfg env) (Some (cls_of t)) (propagate_name t cx) (children t))
           as [its|] eqn:Hw; [|discriminate].
         inversion Hv; subst. eexists. split; [reflexivity|]. split.
-        + rewrite mk_op_leaves, (walk_some_leaves t _ _ _ Hb HW Hw), xl_binary by exact Hb.
+        + rewrite mk_op_leaves, (walk_some_leaves t _ _ _ Hb HW Hw), xl_b_binary by exact Hb.
           reflexivity.
-        + rewrite binary_not_leafy by exact Hb. reflexivity.
+        + rewrite binary_not_leafy_b by exact Hb. reflexivity.
       - pose proof (bhandler_cls cfg t) as Hh. rewrite visit_unfold in Hv. unfold visit_via in Hv.
         rewrite Hh in Hv.
         destruct t as [[]| |[]| | | | |[]|[]|[]|]; try discriminate; simpl children in *.
         + (* Word *) simpl in Hv. inversion Hv. eexists. repeat split.
-        + (* Phrase *) simpl in Hv. unfold xl, phrase_leaf.
+        + (* Phrase *) simpl in Hv. unfold xl_b, phrase_leaf.
           destruct (ctx_is_analyzed cfg cx); inversion Hv; eexists; repeat split.
         + (* SearchField *) simpl field_name in Hv. cbv iota beta zeta in Hv.
           fold (field_ctx cfg (SearchField m fname t) fname cx) in Hv.
@@ -940,7 +995,7 @@ Section LeavesSpec.
             as [e1|] eqn:Hsg; [|discriminate].
           apply single_ok in Hsg. apply (walk_none_leaves _ _ _ HW) in Hsg.
           inversion Hsg as [|? ? ? ? [H1 H2] Hrest]; subst. inversion Hrest; subst.
-          simpl xl. simpl leafy.
+          simpl xl_b. simpl leafy_b.
           destruct (split_nested env fname cx) as [p|].
           * destruct (is_enested e1) eqn:Hen; inversion Hv; subst; eexists; split; try reflexivity.
             -- split; [exact H1|]. rewrite andb_false_r. destruct e1; try discriminate; reflexivity.
@@ -955,7 +1010,7 @@ Section LeavesSpec.
           eexists. split; [reflexivity|]. auto.
         + (* Range *) simpl in Hs. apply andb_prop in Hs as [Hlo Hhi].
           destruct (range_bound_has_value _ Hlo) as [vlo Hvlo].
-          destruct (range_bound_has_value _ Hhi) as [vhi Hvhi]. simpl xl.
+          destruct (range_bound_has_value _ Hhi) as [vhi Hvhi]. simpl xl_b.
           rewrite Hvlo, Hvhi in *. inversion Hv. eexists. repeat split.
         + (* Fuzzy *)
           destruct (single (walk (visit cfg env) None (propagate_name (Fuzzy m t deg impl) cx) [t]))
@@ -969,7 +1024,7 @@ Section LeavesSpec.
             as [e1|] eqn:Hsg; [|discriminate].
           apply single_ok in Hsg. apply (walk_none_leaves _ _ _ HW) in Hsg.
           inversion Hsg as [|? ? ? ? [H1 H2] Hrest]; subst. inversion Hrest; subst.
-          simpl in Hv. simpl xl. simpl leafy.
+          simpl in Hv. simpl xl_b. simpl leafy_b.
           destruct (ctx_is_analyzed cfg cx); inversion Hv; subst; eexists; (split; [reflexivity|]);
             rewrite eleaves_on_leaf, is_leaf_on_leaf, H1, H2; split; reflexivity.
         + (* Boost *)
@@ -1000,7 +1055,7 @@ Section LeavesSpec.
         apply cls_eqb_eq in He as Hp. subst p.
         assert (Hb : is_binary t = true).
         { rewrite <- (binary_cls_of cfg). apply Hpo. reflexivity. }
-        rewrite (walk_some_leaves t _ _ _ Hb HW Hv), xl_binary by exact Hb.
+        rewrite (walk_some_leaves t _ _ _ Hb HW Hv), xl_b_binary by exact Hb.
         rewrite (propagate_unnamed t cx (unnamed_not_named t Hun)). reflexivity.
       + destruct (mixes cfg p (cls_of t)).
         * destruct (Nat.ltb (length (children t)) 2); discriminate.
@@ -1009,12 +1064,12 @@ Section LeavesSpec.
   Qed.
 End LeavesSpec.
 
-(* the leaf items of the E-tree of a supported tree are the expected ones *)
-Lemma build_etree_leaves cfg t e :
+(* the leaf items of the E-tree of a supported tree are the builder-following ones *)
+Lemma build_etree_leaves_b cfg t e :
   supported t = true -> build_etree cfg t = ROk e ->
-  eleaves e = expected_leaves cfg t.
+  eleaves e = xl_b cfg (mk_env cfg) t ctx0.
 Proof.
-  intros Hs. unfold build_etree, build_etree_env, expected_leaves.
+  intros Hs. unfold build_etree, build_etree_env.
   destruct (check_nested (ev_chk (mk_env cfg)) t); [discriminate|].
   destruct (visit cfg (mk_env cfg) t None ctx0) as [its|] eqn:Hv; [|discriminate].
   assert (Hpo : par_ok cfg None) by (intros p Hp; discriminate).
@@ -1041,8 +1096,8 @@ Lemma expected_names_op k m ops inh :
   expected_names (Op k m ops) inh = flat_map (fun c => expected_names c (pass_down (Op k m ops) inh)) ops.
 Proof. exact (op_go_flat_map (fun c => expected_names c (pass_down (Op k m ops) inh)) ops). Qed.
 
-Lemma xl_names cfg env : forall t cx, supported t = true ->
-  map l_name (xl cfg env t cx) = expected_names t (x_name cx).
+Lemma xl_b_names cfg env : forall t cx, supported t = true ->
+  map l_name (xl_b cfg env t cx) = expected_names t (x_name cx).
 Proof.
   intros t. induction t as [k m v|m n e IH|k m e IH|m lo hi il ih _ _|m x d i IH|m x d i IH|m e f i IH
                             |k m ops IH|k m a IH|k m a i IH|m] using item_ind'; intros cx Hs.
@@ -1054,15 +1109,15 @@ Proof.
   - simpl in Hs. apply andb_prop in Hs as [Hlo Hhi].
     destruct (range_bound_has_value _ Hlo) as [vlo Hvlo].
     destruct (range_bound_has_value _ Hhi) as [vhi Hvhi]. simpl. rewrite Hvlo, Hvhi. reflexivity.
-  - simpl. simpl in Hs. destruct (leafy cfg env x _); [rewrite map_name_map by reflexivity|];
+  - simpl. simpl in Hs. destruct (leafy_b cfg env x _); [rewrite map_name_map by reflexivity|];
       rewrite (IH _ Hs), x_name_propagate; reflexivity.
   - simpl. simpl in Hs.
-    destruct (leafy cfg env x _); [rewrite map_name_map by (intros l; destruct (ctx_is_analyzed cfg cx); reflexivity)|];
+    destruct (leafy_b cfg env x _); [rewrite map_name_map by (intros l; destruct (ctx_is_analyzed cfg cx); reflexivity)|];
       rewrite (IH _ Hs), x_name_propagate; reflexivity.
-  - simpl. simpl in Hs. destruct (leafy cfg env e _); [rewrite map_name_map by reflexivity|];
+  - simpl. simpl in Hs. destruct (leafy_b cfg env e _); [rewrite map_name_map by reflexivity|];
       rewrite (IH _ Hs), x_name_propagate; reflexivity.
   - apply supported_children in Hs as Hc. simpl children in Hc.
-    rewrite xl_binary by reflexivity. simpl children.
+    rewrite xl_b_binary by reflexivity. simpl children.
     rewrite (expected_names_op k m ops (x_name cx)), <- x_name_propagate.
     generalize (propagate_name (Op k m ops) cx) as cx'. intros cx'.
     generalize (ztq_of_op (ekind cfg (Op k m ops))) as z. intros z. clear Hs.
@@ -1076,8 +1131,129 @@ Qed.
 Lemma build_etree_names cfg t e :
   supported t = true -> build_etree cfg t = ROk e -> map l_name (eleaves e) = expected_names t None.
 Proof.
-  intros Hs He. rewrite (build_etree_leaves cfg t e Hs He). unfold expected_leaves.
-  exact (xl_names cfg (mk_env cfg) t ctx0 Hs).
+  intros Hs He. rewrite (build_etree_leaves_b cfg t e Hs He).
+  exact (xl_b_names cfg (mk_env cfg) t ctx0 Hs).
+Qed.
+
+(* ================================================================ E'. the specification's leaves; F22 *)
+(* the builder's nesting decision (_split_nested on the derived prefixes) is the specification's
+   crosses_nested (read from the declared paths alone) *)
+Lemma try_prefixes_S np pre names k :
+  try_prefixes np pre names (S k) =
+  if mem_str (dotted (pre ++ firstn (S k) names)) np then Some (dotted (pre ++ firstn (S k) names))
+  else try_prefixes np pre names k.
+Proof. reflexivity. Qed.
+
+Lemma try_prefixes_exists np pre names k :
+  match try_prefixes np pre names k with Some _ => true | None => false end =
+  existsb (fun i => mem_str (dotted (pre ++ firstn (S i) names)) np) (seq 0 k).
+Proof.
+  induction k as [|k IH]; [reflexivity|].
+  rewrite try_prefixes_S, seq_S, existsb_app. cbn [existsb Nat.add]. rewrite orb_false_r, <- IH.
+  destruct (mem_str (dotted (pre ++ firstn (S k) names)) np); [rewrite orb_true_r|rewrite orb_false_r];
+    reflexivity.
+Qed.
+
+Lemma mem_nested_prefixes cfg x :
+  mem_str x (ev_nested_prefixes (mk_env cfg)) = mem_str x (nested_parents cfg).
+Proof.
+  unfold mk_env, nested_parents, declared_nested, prefixes_of. cbn [ev_nested_prefixes].
+  rewrite mem_dedup. reflexivity.
+Qed.
+
+Lemma crosses_split cfg n cx :
+  match split_nested (mk_env cfg) n cx with Some _ => true | None => false end =
+  crosses_nested cfg (field_prefix cx) (split_on c_dot n).
+Proof.
+  unfold split_nested, crosses_nested. rewrite try_prefixes_exists.
+  apply existsb_ext_in. intros k _. apply mem_nested_prefixes.
+Qed.
+
+Lemma field_prefix_propagate t cx : field_prefix (propagate_name t cx) = field_prefix cx.
+Proof. unfold propagate_name. destruct (name_of t) as [[|? ?]|]; reflexivity. Qed.
+
+Lemma field_prefix_field_ctx cfg t n cx :
+  field_prefix (field_ctx cfg t n cx) = field_prefix cx ++ split_on c_dot n.
+Proof. unfold field_ctx. rewrite field_prefix_propagate. reflexivity. Qed.
+
+(* "a direct leaf for the builder" = "a single leaf with no field crossing a nested boundary in between" *)
+Lemma leafy_b_direct cfg : forall t cx,
+  leafy_b cfg (mk_env cfg) t cx = direct_leaf cfg (field_prefix cx) t.
+Proof.
+  intros t. induction t as [k m v|m n e IH|k m e IH|m lo hi il ih _ _|m x d i IH|m x d i IH|m e f i IH
+                            |k m ops _|k m a _|k m a i _|m] using item_ind'; intros cx;
+    unfold direct_leaf in *; try reflexivity.
+  - destruct k; reflexivity.
+  - cbn [leafy_b single_leaf chain_crosses]. rewrite IH, field_prefix_field_ctx, <- crosses_split.
+    destruct (split_nested (mk_env cfg) n cx), (single_leaf e),
+      (chain_crosses cfg (field_prefix cx ++ split_on c_dot n) e); reflexivity.
+  - cbn [leafy_b single_leaf chain_crosses]. rewrite IH, field_prefix_propagate. reflexivity.
+  - cbn [leafy_b single_leaf chain_crosses]. rewrite IH, field_prefix_propagate. reflexivity.
+  - cbn [leafy_b single_leaf chain_crosses]. rewrite IH, field_prefix_propagate. reflexivity.
+  - cbn [leafy_b single_leaf chain_crosses]. rewrite IH, field_prefix_propagate. reflexivity.
+Qed.
+
+Lemma xl_binary cfg t cx :
+  is_binary t = true ->
+  xl cfg t cx =
+  flat_map (fun c => tagz (ztq_of_op (ekind cfg t))
+                          (direct_leaf cfg (field_prefix (propagate_name t cx)) c)
+                          (xl cfg c (propagate_name t cx)))
+           (children t).
+Proof.
+  destruct t as [| | | | | | |k m ops|[] m a| |]; try discriminate; intros _.
+  - simpl children.
+    exact (op_go_flat_map
+             (fun c => tagz (ztq_of_op (ekind cfg (Op k m ops)))
+                            (direct_leaf cfg (field_prefix (propagate_name (Op k m ops) cx)) c)
+                            (xl cfg c (propagate_name (Op k m ops) cx))) ops).
+  - simpl. rewrite app_nil_r. reflexivity.
+Qed.
+
+(* outside F22's class the builder-following leaves ARE the specification's leaves *)
+Lemma xl_b_xl cfg : forall t cx,
+  mod_over_nested_at cfg (field_prefix cx) t = false -> xl_b cfg (mk_env cfg) t cx = xl cfg t cx.
+Proof.
+  intros t. induction t as [k m v|m n e IH|k m e IH|m lo hi il ih _ _|m x d i IH|m x d i IH|m e f i IH
+                            |k m ops IH|k m a IH|k m a i IH|m] using item_ind'; intros cx Hm;
+    try reflexivity.
+  - cbn [xl_b xl]. apply IH. rewrite field_prefix_field_ctx. exact Hm.
+  - cbn [xl_b xl]. apply IH. rewrite field_prefix_propagate. exact Hm.
+  - cbn [mod_over_nested_at] in Hm. apply orb_false_iff in Hm as [H1 H2].
+    cbn [xl_b xl]. rewrite leafy_b_direct, field_prefix_propagate, IH by (rewrite field_prefix_propagate; exact H2).
+    unfold direct_leaf. destruct (single_leaf x); [|reflexivity]. simpl in H1. rewrite H1. reflexivity.
+  - cbn [mod_over_nested_at] in Hm. apply orb_false_iff in Hm as [H1 H2].
+    cbn [xl_b xl]. rewrite leafy_b_direct, field_prefix_propagate, IH by (rewrite field_prefix_propagate; exact H2).
+    unfold direct_leaf. destruct (single_leaf x); [|reflexivity]. simpl in H1. rewrite H1. reflexivity.
+  - cbn [mod_over_nested_at] in Hm. apply orb_false_iff in Hm as [H1 H2].
+    cbn [xl_b xl]. rewrite leafy_b_direct, field_prefix_propagate, IH by (rewrite field_prefix_propagate; exact H2).
+    unfold direct_leaf. destruct (single_leaf e); [|reflexivity]. simpl in H1. rewrite H1. reflexivity.
+  - rewrite xl_b_binary, xl_binary by reflexivity. simpl children.
+    cbn [mod_over_nested_at] in Hm. rewrite <- (field_prefix_propagate (Op k m ops) cx) in Hm.
+    generalize dependent (propagate_name (Op k m ops) cx). intros cx' Hm.
+    generalize (ztq_of_op (ekind cfg (Op k m ops))) as z. intros z.
+    induction IH as [|c l Hc _ IHl]; [reflexivity|]. simpl in Hm. apply orb_false_iff in Hm as [H1 H2].
+    simpl. rewrite leafy_b_direct, (Hc cx' H1), (IHl H2). reflexivity.
+  - cbn [mod_over_nested_at] in Hm.
+    assert (Hb : xl_b cfg (mk_env cfg) (Unary k m a) cx =
+                 tagz (ztq_of_op (ekind cfg (Unary k m a)))
+                      (leafy_b cfg (mk_env cfg) a (propagate_name (Unary k m a) cx))
+                      (xl_b cfg (mk_env cfg) a (propagate_name (Unary k m a) cx))) by reflexivity.
+    assert (Hx : xl cfg (Unary k m a) cx =
+                 tagz (ztq_of_op (ekind cfg (Unary k m a)))
+                      (direct_leaf cfg (field_prefix (propagate_name (Unary k m a) cx)) a)
+                      (xl cfg a (propagate_name (Unary k m a) cx))) by reflexivity.
+    rewrite Hb, Hx, leafy_b_direct, IH by (rewrite field_prefix_propagate; exact Hm). reflexivity.
+  - cbn [xl_b xl]. apply IH. rewrite field_prefix_propagate. exact Hm.
+Qed.
+
+(* the leaf items of the E-tree of a supported tree outside F22's class are the expected ones *)
+Lemma build_etree_leaves cfg t e :
+  supported t = true -> modifier_over_nested cfg t = false -> build_etree cfg t = ROk e ->
+  eleaves e = expected_leaves cfg t.
+Proof.
+  intros Hs Hm He. rewrite (build_etree_leaves_b cfg t e Hs He). unfold expected_leaves.
+  apply xl_b_xl. exact Hm.
 Qed.
 
 (* ================================================================ F. the leaf clauses of the JSON *)
@@ -1220,11 +1396,11 @@ End JsonLeaves.
 
 (* the leaf clauses of the generated query are the clauses of the expected leaves *)
 Lemma build_leaves cfg t j :
-  supported t = true -> kinds_not_reserved cfg t = true ->
+  supported t = true -> kinds_not_reserved cfg t = true -> modifier_over_nested cfg t = false ->
   build cfg t = ROk j -> Permutation (leaves j) (expected_clauses cfg t).
 Proof.
-  intros Hs Hk. unfold build. destruct (build_etree cfg t) as [e|] eqn:He; [|discriminate].
-  intros Hj. pose proof (build_etree_leaves cfg t e Hs He) as Hl.
+  intros Hs Hk Hm. unfold build. destruct (build_etree cfg t) as [e|] eqn:He; [|discriminate].
+  intros Hj. pose proof (build_etree_leaves cfg t e Hs Hm He) as Hl.
   unfold expected_clauses. rewrite <- Hl. apply ejson_leaves; [exact Hj|].
   rewrite Hl. exact Hk.
 Qed.
@@ -1443,7 +1619,7 @@ Proof.
   apply forallb_map_known; auto.
 Qed.
 
-Lemma xl_methods cfg env : forall t cx, forallb method_known (xl cfg env t cx) = true.
+Lemma xl_methods cfg : forall t cx, forallb method_known (xl cfg t cx) = true.
 Proof.
   intros t. induction t using item_ind'; intros cx.
   - destruct k; simpl; unfold word_leaf, phrase_leaf;
@@ -1451,20 +1627,20 @@ Proof.
   - simpl. apply IHt.
   - simpl. apply IHt.
   - simpl. destruct (range_bound_value t1), (range_bound_value t2); reflexivity.
-  - simpl. destruct (leafy cfg env t (propagate_name (Fuzzy m t d i) cx)); [|apply IHt].
+  - simpl. destruct (single_leaf t); [|apply IHt].
     apply forallb_map_known; [reflexivity|apply IHt].
-  - simpl. destruct (leafy cfg env t (propagate_name (Proximity m t d i) cx)); [|apply IHt].
+  - simpl. destruct (single_leaf t); [|apply IHt].
     apply forallb_map_known; [|apply IHt]. intros l Hl. destruct (ctx_is_analyzed cfg cx); [exact Hl|reflexivity].
-  - simpl. destruct (leafy cfg env t (propagate_name (Boost m t f i) cx)); [|apply IHt].
+  - simpl. destruct (single_leaf t); [|apply IHt].
     apply forallb_map_known; [auto|apply IHt].
-  - change (xl cfg env (Op k m ops) cx) with
+  - change (xl cfg (Op k m ops) cx) with
       ((fix go (l : list item) : list leaf :=
           match l with
           | [] => []
           | c :: l' =>
               tagz (ztq_of_op (ekind cfg (Op k m ops)))
-                   (leafy cfg env c (propagate_name (Op k m ops) cx))
-                   (xl cfg env c (propagate_name (Op k m ops) cx)) ++ go l'
+                   (direct_leaf cfg (field_prefix (propagate_name (Op k m ops) cx)) c)
+                   (xl cfg c (propagate_name (Op k m ops) cx)) ++ go l'
           end) ops).
     generalize (propagate_name (Op k m ops) cx) as cx'.
     generalize (ztq_of_op (ekind cfg (Op k m ops))) as z. intros z cx'.
@@ -1506,6 +1682,6 @@ Lemma options_kinds_not_reserved cfg t :
   options_not_reserved cfg = true -> kinds_not_reserved cfg t = true.
 Proof.
   intros Ho. unfold kinds_not_reserved, expected_leaves.
-  pose proof (xl_methods cfg (mk_env cfg) t ctx0) as H. rewrite forallb_forall in *.
+  pose proof (xl_methods cfg t ctx0) as H. rewrite forallb_forall in *.
   intros l Hl. apply kind_not_reserved_known; [exact Ho|apply H; exact Hl].
 Qed.
